@@ -141,6 +141,9 @@ def main():
         if only_case is not None:
             if only_case.startswith("directed:"):
                 run_directed(only_case.split(":", 1)[1])
+            elif only_case == "exhaustive":
+                ctx.case = "exhaustive"
+                mod.run_exhaustive(ctx)
             else:
                 run_case(int(only_case))
                 cases_done = 1
